@@ -1,5 +1,7 @@
 package simrt
 
+import "unsafe"
+
 // Replacements for sync.Mutex / RWMutex / WaitGroup / Once / Cond. State lives
 // in plain fields: only the task holding the baton touches it.
 
@@ -22,6 +24,7 @@ func (m *Mutex) Lock() {
 		s.block(func() bool { return !m.locked }, "mutex")
 	}
 	m.locked = true
+	raceAcquire(unsafe.Pointer(m))
 }
 
 func (m *Mutex) TryLock() bool {
@@ -29,6 +32,7 @@ func (m *Mutex) TryLock() bool {
 		return false
 	}
 	m.locked = true
+	raceAcquire(unsafe.Pointer(m))
 	return true
 }
 
@@ -36,6 +40,7 @@ func (m *Mutex) Unlock() {
 	if !m.locked {
 		panic("sync: unlock of unlocked mutex")
 	}
+	raceRelease(unsafe.Pointer(m))
 	m.locked = false
 	if S != nil && !S.killed {
 		S.yield("unlock")
@@ -47,6 +52,8 @@ type RWMutex struct {
 	readers  int
 	writer   bool
 	wwaiting int
+	rsync    int32 // race edges: released by writers, acquired by readers and writers
+	wsync    int32 // race edges: released by readers, acquired by writers
 }
 
 func (m *RWMutex) RLock() {
@@ -64,12 +71,14 @@ func (m *RWMutex) RLock() {
 		s.block(func() bool { return !m.writer && m.wwaiting == 0 }, "rwmutex-r")
 	}
 	m.readers++
+	raceAcquire(unsafe.Pointer(&m.rsync))
 }
 
 func (m *RWMutex) RUnlock() {
 	if m.readers <= 0 {
 		panic("sync: RUnlock of unlocked RWMutex")
 	}
+	raceRelease(unsafe.Pointer(&m.wsync))
 	m.readers--
 	if S != nil && !S.killed {
 		S.yield("runlock")
@@ -95,12 +104,15 @@ func (m *RWMutex) Lock() {
 		m.wwaiting--
 	}
 	m.writer = true
+	raceAcquire(unsafe.Pointer(&m.rsync))
+	raceAcquire(unsafe.Pointer(&m.wsync))
 }
 
 func (m *RWMutex) Unlock() {
 	if !m.writer {
 		panic("sync: Unlock of unlocked RWMutex")
 	}
+	raceRelease(unsafe.Pointer(&m.rsync))
 	m.writer = false
 	if S != nil && !S.killed {
 		S.yield("wunlock")
@@ -112,6 +124,9 @@ type WaitGroup struct {
 }
 
 func (wg *WaitGroup) Add(d int) {
+	if d < 0 {
+		raceRelease(unsafe.Pointer(wg))
+	}
 	wg.n += d
 	if wg.n < 0 {
 		panic("sync: negative WaitGroup counter")
@@ -134,12 +149,14 @@ func (wg *WaitGroup) Wait() {
 		if wg.n != 0 {
 			panic("simrt: WaitGroup would block outside a simulation")
 		}
+		raceAcquire(unsafe.Pointer(wg))
 		return
 	}
 	s.yield("wg-wait")
 	for wg.n > 0 {
 		s.block(func() bool { return wg.n == 0 }, "waitgroup")
 	}
+	raceAcquire(unsafe.Pointer(wg))
 }
 
 type Once struct {
@@ -149,6 +166,7 @@ type Once struct {
 
 func (o *Once) Do(f func()) {
 	if o.done {
+		raceAcquire(unsafe.Pointer(o))
 		return
 	}
 	if o.running {
@@ -159,10 +177,11 @@ func (o *Once) Do(f func()) {
 		for !o.done {
 			s.block(func() bool { return o.done }, "once")
 		}
+		raceAcquire(unsafe.Pointer(o))
 		return
 	}
 	o.running = true
-	defer func() { o.done = true; o.running = false }()
+	defer func() { raceRelease(unsafe.Pointer(o)); o.done = true; o.running = false }()
 	f()
 }
 
